@@ -1,4 +1,5 @@
 import Afkak.Monitor.C05
+import AfkakProofs.Wire.RespProofs3
 import AfkakProps.Open.C05
 /-!
 # C05 — responses and message sets decode to exactly what was encoded
@@ -53,26 +54,112 @@ example : (5 : Int).toNat &&& attributeCodecMask = codecGzip.toNat := by decide
 example : v1Inner 102 ([⟨0, default⟩, ⟨1, default⟩, ⟨2, default⟩], none)
     = ([⟨100, default⟩, ⟨101, default⟩, ⟨102, default⟩], none) := by decide
 
+/-! ## responses: decoding the grammar's encoding gives the value back
+
+`expectedX v = some e` says `v` is a well-formed response (encodable, ASCII topic / host names, UTF-8
+ids, …) and `e` is the same value in afkak's result types.  For the generator-style decoders
+`finished g e` says: exactly the items `e` were yielded and the generator then ended normally. -/
+
+theorem C05_produce_v0_roundtrip : Afkak.Props.C05.C05_produce_v0_roundtrip_stmt := by
+  intro v e he
+  obtain ⟨cur, h⟩ := produceV0_roundtrip v e he
+  exact ⟨_, h, rfl, cur, rfl⟩
+
+theorem C05_produce_v2_roundtrip : Afkak.Props.C05.C05_produce_v2_roundtrip_stmt := by
+  intro v e he
+  obtain ⟨cur, h⟩ := produceV2_roundtrip v e he
+  exact ⟨_, h, rfl, cur, rfl⟩
+
+theorem C05_list_offsets_roundtrip : Afkak.Props.C05.C05_list_offsets_roundtrip_stmt := by
+  intro v e he
+  obtain ⟨cur, h⟩ := listOffsets_roundtrip v e he
+  exact ⟨by rw [h], cur, by rw [h]⟩
+
+theorem C05_offset_commit_roundtrip : Afkak.Props.C05.C05_offset_commit_roundtrip_stmt := by
+  intro v e he
+  obtain ⟨cur, h⟩ := offsetCommit_roundtrip v e he
+  exact ⟨by rw [h], cur, by rw [h]⟩
+
+theorem C05_offset_fetch_roundtrip : Afkak.Props.C05.C05_offset_fetch_roundtrip_stmt := by
+  intro v e he
+  obtain ⟨cur, h⟩ := offsetFetch_roundtrip v e he
+  exact ⟨by rw [h], cur, by rw [h]⟩
+
+/-- FindCoordinator -/
+theorem C05_find_coordinator_roundtrip (v : Spec.FindCoordinatorResp) (e : ConsumerMetadataResp)
+    (he : expectedFindCoordinator v = some e) :
+    decodeConsumerMetadataResponse (Spec.findCoordinatorResponse.enc v) = .ok e :=
+  findCoordinator_roundtrip v e he
+
+theorem C05_join_group_roundtrip : Afkak.Props.C05.C05_join_group_roundtrip_stmt :=
+  fun v e he => joinGroup_roundtrip v e he
+
+/-- SyncGroup -/
+theorem C05_sync_group_roundtrip (v : Spec.SyncGroupResp) (e : Int × Option Bytes) (he : expectedSyncGroup v = some e) :
+    decodeSyncGroupResponse (Spec.syncGroupResponse.enc v) = .ok e := by
+  simp only [expectedSyncGroup] at he
+  split at he
+  · rename_i hv; cases he; exact syncGroup_roundtrip v hv
+  · cases he
+
+/-- Heartbeat and LeaveGroup -/
+theorem C05_error_only_roundtrip (v : Spec.ErrorOnlyResp) (e : Int) (he : expectedErrorOnly v = some e) :
+    decodeHeartbeatResponse (Spec.errorOnlyResponse.enc v) = .ok e
+    ∧ decodeLeaveGroupResponse (Spec.errorOnlyResponse.enc v) = .ok e := by
+  simp only [expectedErrorOnly] at he
+  split at he
+  · rename_i hv
+    cases he
+    exact ⟨errorOnly_roundtrip v hv, errorOnly_roundtrip v hv⟩
+  · cases he
+
+/-- ApiVersions (finding F3, repaired) -/
+theorem C05_api_versions_roundtrip : Afkak.Props.C05.C05_api_versions_roundtrip_stmt :=
+  fun v e he => apiVersions_roundtrip v e he
+
+theorem C05_subscription_roundtrip : Afkak.Props.C05.C05_subscription_roundtrip_stmt :=
+  fun v e he => subscription_roundtrip v e he
+
+/-- the correlation id is read back from any response -/
+theorem C05_correlation_id (corr : Int) (rest : Bytes) (e : Int) (he : expectedCorrelationId corr = some e) :
+    getResponseCorrelationId (int32.enc corr ++ rest) = .ok e := by
+  simp only [expectedCorrelationId] at he
+  split at he
+  · rename_i hv; cases he; exact correlationId_roundtrip corr rest hv
+  · cases he
+
+/-! Non-vacuity: concrete well-formed values (boundary integers, every kind of error code, empty and
+non-empty strings) for which `expectedX` is `some _`. -/
+example : expectedProduceV0 (7, [([116], [(0, 0, 5), (2147483647, -1, 9223372036854775807)]), ([], [])])
+    = some ([⟨[116], 0, 0, 5⟩, ⟨[116], 2147483647, -1, 9223372036854775807⟩], true) := by decide
+example : (expectedApiVersions (7, 35, [(18, 0, 3), (0, 0, 8)])).isSome = true := by decide
+example : (expectedJoinGroup (1, 0, 3, [114], [109], [109], [([109], [0, 1])])).isSome = true := by decide
+example : (expectedOffsetFetch (-2147483648, [([116], [(0, -1, none, 3), (1, 5, some [], 0)])])).isSome = true := by decide
+
 end Afkak.Props.C05
 
 /- OBLIGATIONS
 C05_absolute_offsets_v1
 C05_v1_inner_error
 C05_absolute_offsets_v0
--/
-/- OPEN_STATEMENTS
 C05_produce_v0_roundtrip
 C05_produce_v2_roundtrip
+C05_list_offsets_roundtrip
+C05_offset_commit_roundtrip
+C05_offset_fetch_roundtrip
+C05_find_coordinator_roundtrip
+C05_join_group_roundtrip
+C05_sync_group_roundtrip
+C05_error_only_roundtrip
+C05_api_versions_roundtrip
+C05_subscription_roundtrip
+C05_correlation_id
+-/
+/- OPEN_STATEMENTS
 C05_msgset_roundtrip
 C05_gzip_roundtrip
 C05_fetch_v0_roundtrip
 C05_fetch_v2_roundtrip
-C05_list_offsets_roundtrip
 C05_metadata_roundtrip
-C05_offset_commit_roundtrip
-C05_offset_fetch_roundtrip
-C05_join_group_roundtrip
-C05_subscription_roundtrip
 C05_assignment_roundtrip
-C05_api_versions_roundtrip
 -/
